@@ -189,6 +189,10 @@ impl LsmVerifier {
             for added in edit.added() {
                 let setsum = Setsum::from_hexdigest(added)
                     .ok_or_else(|| corruption(format!("manifest added has bad digest: {added}")))?;
+                if !first {
+                    // The name is only a claim; what the transaction added is what the file holds.
+                    self.verify_contents(setsum)?;
+                }
                 computed_discard -= setsum;
             }
             for rmed in edit.rmed() {
@@ -317,6 +321,24 @@ impl LsmVerifier {
                     "computed_discard^-1",
                     (Setsum::default() - computed_discard).hexdigest(),
                 ));
+        }
+        Ok(())
+    }
+
+    fn verify_contents(&self, setsum: Setsum) -> Result<(), SError> {
+        let mut cursor = self.get_cursor(setsum)?;
+        cursor.seek_to_first()?;
+        cursor.next()?;
+        let mut computed = sst::Setsum::default();
+        while let Some(kvr) = cursor.key_value() {
+            computed.insert(kvr);
+            cursor.next()?;
+        }
+        let computed = computed.into_inner();
+        if computed != setsum {
+            return Err(corruption("sst contents do not match the setsum it was added under")
+                .with_debug_field("setsum", setsum.hexdigest())
+                .with_debug_field("computed", computed.hexdigest()));
         }
         Ok(())
     }
